@@ -297,6 +297,37 @@ fn main() {
     });
     sink.merge(sm);
     sink.bump("many-record buffers", nmany as u64);
+    // complete records at and above the length cap (the multi-record parsers must refuse exactly what
+    // the single-record parser refuses), alone, after valid records and followed by more data
+    let mut caps: Vec<Vec<u8>> = Vec::new();
+    for len in [16639usize, 16640, 16641, 16642, 20000, 65535] {
+        for (ty, fillb) in [(0x14u8, 1u8), (0x15, 1), (0x17, 7), (0x16, 0)] {
+            let mut t = vec![ty, 0x03, 0x03, (len >> 8) as u8, len as u8];
+            t.extend(std::iter::repeat(fillb).take(len));
+            caps.push(t);
+            if ty != 0x17 {
+                let mut d = vec![ty, 0xfe, 0xfd, 0, 0, 0, 0, 0, 0, 0, 1, (len >> 8) as u8, len as u8];
+                d.extend(std::iter::repeat(fillb).take(len));
+                caps.push(d);
+            }
+        }
+    }
+    let ncaps = caps.len();
+    let scap = par_run(run.threads, caps.len(), |i, sink| {
+        check(&caps[i], sink);
+        for pre in [2usize, 9] {
+            let mut b = recs[pre].clone();
+            b.extend_from_slice(&caps[i]);
+            check(&b, sink);
+        }
+        let mut b = caps[i].clone();
+        b.extend_from_slice(&recs[0]);
+        check(&b, sink);
+        b.truncate(caps[i].len() - 1);
+        check(&b, sink);
+    });
+    sink.merge(scap);
+    sink.bump("complete records around / above the cap", ncaps as u64);
     // every short string over a record-oriented alphabet
     let a = Alpha::new(
         &[&[0x14, 0x15, 0x16, 0x17, 0x18, 0xff], &[0x03], &[0x03], &[0x00, 0x41], &[0x00, 0x01, 0x02, 0x04, 0x05]],
@@ -342,7 +373,7 @@ fn main() {
     cov.insert("terminators".into(), json!(terms.len()));
     cov.insert("concatenations".into(), json!(nseq));
     cov.insert("rule".into(), json!(format!(
-        "every concatenation of 0..{} records from a {}-record catalogue (8 TLS, 4 DTLS) followed by each of {} terminators (nothing, strict prefixes of valid records, oversize headers, valid header with bad content, unknown type, garbage), plus every single lying-length deviation of records carrying each kind of catalogue handshake message (TLS and DTLS) after 0..2 valid records, through tls_parser_many and parse_dtls_plaintext_records; buffers of 5 / 6 / 7 / 8 / 15 / 100 / 255 / 256 / 257 / 1000 minimal records of 5 kinds; every string of length <= {} (TLS) / <= {} (DTLS) over record-oriented positional alphabets. Oracle: the explicit loop over the real single-record parser (same records by value and slice position, remainder = first failing record, failure iff the first record fails); tls_parser == parse_tls_plaintext on every buffer. Non-trivial: every buffer",
+        "every concatenation of 0..{} records from a {}-record catalogue (8 TLS, 4 DTLS) followed by each of {} terminators (nothing, strict prefixes of valid records, oversize headers, valid header with bad content, unknown type, garbage), plus every single lying-length deviation of records carrying each kind of catalogue handshake message (TLS and DTLS) after 0..2 valid records, through tls_parser_many and parse_dtls_plaintext_records; complete records of 16639 / 16640 / 16641 / 16642 / 20000 / 65535 bytes (4 TLS and 3 DTLS kinds) alone, after valid records and followed by data; buffers of 5 / 6 / 7 / 8 / 15 / 100 / 255 / 256 / 257 / 1000 minimal records of 5 kinds; every string of length <= {} (TLS) / <= {} (DTLS) over record-oriented positional alphabets. Oracle: the explicit loop over the real single-record parser (same records by value and slice position, remainder = first failing record, failure iff the first record fails); tls_parser == parse_tls_plaintext on every buffer. Non-trivial: every buffer",
         k, nrec, terms.len(), n, nd)));
     let code = run.finish(&sink, cov, vec!["differential oracle: the single-record parsers are taken as given here (their correctness is C02/C03/C10)".into()]);
     std::process::exit(code);
